@@ -12,9 +12,87 @@ package dsl
 //@ method-pre UnmarshalYAML nonnil
 // A mapping node has an even number of children; children are never nil. (Nothing ties Tag to Kind: an explicit tag
 // such as `!!map [a, b]` or `!record [..]` yields a sequence node carrying that tag.)
-//@ axiom forall n *yaml.Node :: n != nil && n.Kind == yaml.MappingNode ==> len(n.Content) % 2 == 0
-//@ axiom forall n *yaml.Node :: n != nil ==> (n.Kind == yaml.DocumentNode || n.Kind == yaml.SequenceNode || n.Kind == yaml.MappingNode || n.Kind == yaml.ScalarNode || n.Kind == yaml.AliasNode)
-//@ axiom forall n *yaml.Node :: n != nil ==> (forall k in 0..len(n.Content) :: n.Content[k] != nil)
+//@ type-invariant *yaml.Node n :: n.Kind == yaml.MappingNode ==> len(n.Content) % 2 == 0
+//@ type-invariant *yaml.Node n :: n.Kind == yaml.DocumentNode || n.Kind == yaml.SequenceNode || n.Kind == yaml.MappingNode || n.Kind == yaml.ScalarNode || n.Kind == yaml.AliasNode
+//@ type-invariant *yaml.Node n :: n.Kind == yaml.ScalarNode || n.Kind == yaml.AliasNode ==> len(n.Content) == 0
+// a document is bounded by its file: no node has more than 2^20 children (assumption, listed in evidence)
+//@ type-invariant *yaml.Node n :: len(n.Content) <= 1048576
+//@ elems-nonnil *gopkg.in/yaml.v3.Node
 
 // ---- C10: no-panic sweep of the front end ---------------------------------------------------------------
 //@ sweep C10 file pkg/dsl/yaml.go
+//@ sweep C10 file pkg/dsl/expressionparser.go
+//@ sweep C10 file pkg/dsl/validation.go
+//@ sweep C10 file pkg/dsl/validation_arrays.go
+//@ sweep C10 file pkg/dsl/validation_maps.go
+//@ sweep C10 file pkg/dsl/validation_enums.go
+//@ sweep C10 file pkg/dsl/validation_unions.go
+//@ sweep C10 file pkg/dsl/validation_type_resolution.go
+//@ sweep C10 file pkg/dsl/validation_topological_sort.go
+//@ sweep C10 file pkg/dsl/validation_computed_fields.go
+//@ sweep C10 file pkg/dsl/typefunctions.go
+//@ sweep C10 file pkg/dsl/rewriter.go
+//@ sweep C10 file pkg/dsl/visitor.go
+//@ sweep C10 file pkg/dsl/types.go
+
+// ---- yaml.go: every function that receives yaml nodes is an entry point: its node arguments are arbitrary
+// trees satisfying the axioms above. The only thing callers must establish is that the node is not nil.
+//@ func UnmarshalExpression
+//@   entry
+//@   requires value != nil
+//@ func UnmarshalSwitchExpression
+//@   entry
+//@   requires targetNode != nil
+//@   requires len(caseNodes) % 2 == 0 && len(caseNodes) <= 1048576
+//@ func UnmarshalPattern
+//@   entry
+//@   requires patternNode != nil
+//@ func UnmarshalVectorYAML
+//@   entry
+//@   property C10
+//@   requires value != nil
+//@   ensures result1 == nil ==> result0 != nil
+//@ func UnmarshalArrayYAML
+//@   entry
+//@   property C10
+//@   requires value != nil
+//@   ensures result1 == nil ==> result0 != nil
+//@ func UnmarshalStreamYAML
+//@   entry
+//@   property C10
+//@   requires value != nil
+//@   ensures result1 == nil ==> result0 != nil
+//@ func UnmarshalMapYAML
+//@   entry
+//@   property C10
+//@   requires value != nil
+//@   ensures result1 == nil ==> result0 != nil
+//@ func UnmarshalTypeDefinition
+//@   entry
+//@   requires value != nil && definitionMeta != nil
+//@ func UnmarshalTypeYAML
+//@   entry
+//@   requires value != nil
+//@ func UnmarshalUnionYAML
+//@   entry
+//@   property C10
+//@   requires value != nil
+//@   ensures result1 == nil ==> result0 != nil
+//@ func UnmarshalTypeCases
+//@   entry
+//@   requires value != nil
+//@ func UnmarshalGenericNode
+//@   entry
+//@   requires value != nil
+//@ func UnmarshalEnumValues
+//@   entry
+//@   property C10
+//@   requires value != nil
+//@   ensures result1 == nil ==> result0 != nil
+//@ func parseError
+//@   requires node != nil
+//@ func createNodeMeta
+//@   requires yamlNode != nil
+//@ func UnmarshalFieldsOrProtocolStepsYAML
+//@   entry
+//@   requires value != nil && elements != nil
